@@ -7,9 +7,10 @@
    - the rollup exit tree: every accepted update records the reference sparse Merkle root of the updated leaf map, the node
      store stays closed for every version, the leaf map is "last non-zero exit root verified per rollup"
      (built on Proofs/SparseUpsert.v, instantiated at Keccak under the injectivity hypothesis). *)
-From Coq Require Import NArith ZArith List Bool Lia Sorted Arith PeanoNat.
+From Coq Require Import NArith ZArith List Bool Lia Sorted Arith PeanoNat FMapFacts.
 From Verif Require Import Base.Bytes Base.FastBytes Base.Hash Model.Merkle Model.MerkleSpec Model.TreeStore Model.Contracts
-  Model.L1InfoStore Proofs.Frontier Proofs.Rht Proofs.SparseUpsert Proofs.BitFacts.
+  Model.L1InfoStore Proofs.Frontier Proofs.Rht Proofs.SparseUpsert Proofs.BitFacts Proofs.ContractProofs Proofs.C01Proofs
+  Proofs.TreeStoreProofs Proofs.TreeStoreCorollaries.
 Import ListNotations.
 Open Scope N_scope.
 
@@ -470,4 +471,896 @@ Proof.
   intros Hord d k l Hk. pose proof (LInv_run ops lstate_new LInv_empty Hord) as [_ H2 _ H4 _]. fold d in H2, H4. split.
   - unfold info_by_index. apply (find_by_index (d_leaves d) 0%nat); [intros k' l' Hk'; cbn; apply H2; exact Hk'|exact Hk].
   - unfold info_by_ger. apply find_by_ger; [exact H4|]. apply nth_error_In with k. exact Hk.
+Qed.
+
+(* ====================================================================================================
+   3. Executable tree store <-> the generic Merkle theory
+   ==================================================================================================== *)
+
+Lemma pow32_nat : N.to_nat 4294967296 = (2 ^ HEIGHT)%nat.
+Proof. change 4294967296 with (2 ^ 32)%N. rewrite N2Nat.inj_pow. reflexivity. Qed.
+Lemma u32_lt_pow x : x <= mask32 -> (N.to_nat x < 2 ^ HEIGHT)%nat.
+Proof. intros H. rewrite <- pow32_nat. unfold mask32 in H. lia. Qed.
+
+Section MapExt0.
+Context {hash : Type}.
+Lemma zeros_ext_zh (zh zh' : nat -> hash) : forall h, (forall l, (l < h)%nat -> zh l = zh' l) -> zeros zh h = zeros zh' h.
+Proof.
+  induction h as [|h IH]; intros E; cbn [zeros]; [reflexivity|]. rewrite IH by (intros l Hl; apply E; lia). rewrite E by lia. reflexivity.
+Qed.
+Lemma swalk_ext_zm (zh zh' : nat -> hash) (m m' : @Merkle.rht hash) : (forall x, m x = m' x) ->
+  forall h, (forall l, (l < h)%nat -> zh l = zh' l) -> forall x bit, swalk zh m h x bit = swalk zh' m' h x bit.
+Proof.
+  intros E. induction h as [|h IH]; intros Ez x bit; cbn [swalk]; [reflexivity|].
+  rewrite <- E. destruct (m x) as [[l r]|].
+  - destruct (bit h); rewrite (IH (fun l Hl => Ez l (Nat.lt_lt_succ_r _ _ Hl))); reflexivity.
+  - change (zeros zh h ++ [zh h] = zeros zh' h ++ [zh' h]). rewrite (zeros_ext_zh zh zh' h) by (intros l Hl; apply Ez; lia).
+    rewrite Ez by lia. reflexivity.
+Qed.
+Lemma walk_ext_m (m m' : @Merkle.rht hash) : (forall x, m x = m' x) -> forall h x bit, walk m h x bit = walk m' h x bit.
+Proof.
+  intros E. induction h as [|h IH]; intros x bit; cbn [walk]; [reflexivity|].
+  rewrite <- E. destruct (m x) as [[l r]|]; [|reflexivity]. destruct (bit h); rewrite IH; reflexivity.
+Qed.
+Lemma path_index_ext h : forall k (b b' : nat -> bool), (forall l, (l < h)%nat -> b l = b' l) -> path_index h k b = path_index h k b'.
+Proof.
+  induction h as [|h IH]; intros k b b' E; cbn [path_index]; [reflexivity|].
+  rewrite (E h) by lia. apply IH. intros l Hl. apply E. lia.
+Qed.
+End MapExt0.
+Section MapExt1.
+Context {hash : Type}.
+Variable heq_dec : forall a b : hash, {a = b} + {a <> b}.
+Lemma ins_ext' (m m' : @Merkle.rht hash) k v : (forall x, m x = m' x) -> forall x, ins heq_dec m k v x = ins heq_dec m' k v x.
+Proof. intros E x. unfold ins. rewrite !E. reflexivity. Qed.
+Lemma ins_all_ext' ns : forall (m m' : @Merkle.rht hash), (forall x, m x = m' x) -> forall x, ins_all heq_dec m ns x = ins_all heq_dec m' ns x.
+Proof.
+  induction ns as [|n ns IH]; intros m m' E x; cbn [ins_all fold_left]; [apply E|].
+  apply IH. apply ins_ext'. exact E.
+Qed.
+End MapExt1.
+Section MapExt2.
+Context {hash : Type}.
+Variable node : hash -> hash -> hash.
+Variable z0 : hash.
+Lemma CL_ext_m (m m' : @Merkle.rht hash) g : (forall x, m x = m' x) -> forall h k, CL node z0 m g h k -> CL node z0 m' g h k.
+Proof.
+  intros E. induction h as [|h IH]; intros k Hc; cbn [CL] in *; [exact I|].
+  rewrite <- E. destruct Hc as [(Hs & H1 & H2)|Hz]; [left|right; exact Hz]. split; [exact Hs|]. split; apply IH; assumption.
+Qed.
+Lemma WF_ext_m (m m' : @Merkle.rht hash) : (forall x, m x = m' x) -> WF node m -> WF node m'.
+Proof. intros E Hw k l r H. apply Hw. rewrite E. exact H. Qed.
+End MapExt2.
+
+Lemma store_nodes_f_ok f t ns : forall c m m' c', store_nodes_f f t c m ns = Some (m', c') -> m' = store_nodes m ns.
+Proof.
+  unfold store_nodes_f, store_nodes.
+  assert (Hnone : forall ns, fold_left (fun (acc : option (NM.t (N * N) * counters)) n => match acc with
+                          | None => None
+                          | Some (m, c) => if hits f c t then None else
+                                           match NM.find (fst n) m with
+                                           | Some _ => Some (m, c)
+                                           | None => Some (NM.add (fst n) (snd n) m, bump c t) end
+                          end) ns None = None) by (induction ns0 as [|? ? IHn]; [reflexivity|exact IHn]).
+  induction ns as [|n ns IH]; intros c m m' c' H; cbn [fold_left] in *; [inversion H; reflexivity|].
+  destruct (hits f c t); [rewrite Hnone in H; discriminate|].
+  revert H. unfold store_node. change NM.key with N in *. destruct (NM.find (fst n) m); intros H; eapply IH; exact H.
+Qed.
+
+(* the precomputed zero table, the N-indexed bit test and the nat-indexed theory *)
+Lemma height_le_32 : (HEIGHT <= 32)%nat.
+Proof. unfold HEIGHT. lia. Qed.
+Lemma height_ge_32 : (32 <= HEIGHT)%nat.
+Proof. unfold HEIGHT. lia. Qed.
+Lemma small_lt_pow n : (n <= 32)%nat -> (n < 2 ^ HEIGHT)%nat.
+Proof.
+  intros H. pose proof height_ge_32 as Hh. pose proof (Nat.pow_gt_lin_r 2 HEIGHT ltac:(lia)) as Hp.
+  set (p := (2 ^ HEIGHT)%nat) in *. clearbody p. lia.
+Qed.
+Lemma swalk_exec (m : @Merkle.rht N) x bit : swalk zh m HEIGHT x bit = swalk (zero nodeN 0) m HEIGHT x bit.
+Proof. apply (swalk_ext_zm zh (zero nodeN 0) m m (fun _ => eq_refl)). intros l Hl. apply zh_is_zero. unfold HEIGHT in Hl. lia. Qed.
+Lemma path_index_exec idx : idx <= mask32 -> path_index HEIGHT 0 (bitN idx) = N.to_nat idx.
+Proof.
+  intros H. rewrite <- (path_index_root HEIGHT (N.to_nat idx) (u32_lt_pow idx H)).
+  apply path_index_ext. intros l _. rewrite <- (N2Nat.id idx) at 1. apply bitN_of_nat.
+Qed.
+
+(* from here on the tree height is a black box: nothing may unfold a depth-32 recursion *)
+Opaque HEIGHT.
+
+(* TreeStore.last_root (ORDER BY block_num DESC, block_position DESC LIMIT 1) as max_by *)
+Definition rkey (r : root_row) : N * N := (r_block r, r_bpos r).
+Lemma last_root_max_by db : last_root db = max_by rkey (t_roots db).
+Proof.
+  unfold last_root, max_by. generalize (@None root_row). induction (t_roots db) as [|r l IH]; intros acc; cbn [fold_left]; [reflexivity|].
+  rewrite IH. f_equal. destruct acc as [a|]; [|reflexivity].
+  unfold root_after, key_lt, rkey. cbn [fst snd]. rewrite (N.eqb_sym (r_block r) (r_block a)). reflexivity.
+Qed.
+Lemma StronglySorted_map {A B} (R : B -> B -> Prop) (f : A -> B) l :
+  StronglySorted (fun a b => R (f a) (f b)) l -> StronglySorted R (map f l).
+Proof.
+  induction 1 as [|x l Hs IH Hx]; cbn [map]; constructor; [exact IH|].
+  rewrite Forall_forall in *. intros y Hy. apply in_map_iff in Hy as (z & <- & Hz). apply Hx. exact Hz.
+Qed.
+Lemma olast_map {A B} (f : A -> B) l : olast (map f l) = option_map f (olast l).
+Proof.
+  destruct l as [|x t]; [reflexivity|]. cbn [map olast option_map]. f_equal.
+  revert x. induction t as [|y t IH]; intros x; [reflexivity|]. cbn [map last].
+  destruct t; [reflexivity|]. apply IH.
+Qed.
+
+(* ====================================================================================================
+   4. The rollup exit tree
+   ==================================================================================================== *)
+Section Rollup.
+(* Keccak idealised as an injective node function (the hypothesis of Proofs/SparseUpsert.v) *)
+Hypothesis nodeN_inj : forall a b c d, nodeN a b = nodeN c d -> a = c /\ b = d.
+
+Notation CLN := (CL nodeN 0).
+Notation SRoot g := (ssub nodeN g HEIGHT 0).
+
+(* position and leaf function described by the verify_batches table *)
+Definition ridx (rid : N) : nat := N.to_nat (u32_pred rid).
+Definition gstep (g : nat -> N) (r : vb_row) : nat -> N := supd g (ridx (vr_rid r)) (vr_exit r).
+Definition gmap (rows : list vb_row) : nat -> N := fold_left gstep rows (fun _ => 0).
+Definition root_of_row (r : vb_row) : root_row := mkRoot (vr_rer r) (u32_pred (vr_rid r)) (vr_block r) (vr_pos r).
+
+Record RInv (d : ldb) : Prop := {
+  ri_wf : WF nodeN (lookup (d_rollup d));
+  ri_roots : t_roots (d_rollup d) = map root_of_row (d_vb d);
+  ri_cl : forall n, (n <= length (d_vb d))%nat -> CLN (lookup (d_rollup d)) (gmap (firstn n (d_vb d))) HEIGHT 0;
+  ri_rer : forall n r, nth_error (d_vb d) n = Some r -> vr_rer r = SRoot (gmap (firstn (S n) (d_vb d)));
+  ri_sorted : StronglySorted (fun a b => klt (vb_key a) (vb_key b)) (d_vb d);
+  ri_blocks : forall r, In r (d_vb d) -> In (vr_block r) (map fst (d_blocks d));
+  ri_small : forall r, In r (d_vb d) -> vr_rid r <= mask32 /\ vr_exit r <> 0 }.
+
+Lemma lookup_empty_WF : WF nodeN (lookup tdb_empty).
+Proof. intros k l r H. unfold lookup, tdb_empty in H. cbn [t_rht] in H. rewrite NMF.empty_o in H. discriminate. Qed.
+Lemma RInv_empty : RInv ldb_empty.
+Proof.
+  constructor; unfold ldb_empty; cbn [d_vb d_rollup d_blocks length map t_roots tdb_empty].
+  - apply lookup_empty_WF.
+  - reflexivity.
+  - intros n Hn. destruct n; [|lia]. cbn [firstn gmap fold_left]. apply (CL_empty nodeN 0 nodeN_inj). apply lookup_empty_WF.
+  - intros [|n] r H; discriminate.
+  - constructor.
+  - intros r [].
+  - intros r [].
+Qed.
+
+Lemma u32_pred_small rid : rid <= mask32 -> u32_pred rid <= mask32.
+Proof. unfold u32_pred, mask32. destruct (N.eqb_spec rid 0); lia. Qed.
+
+(* the root the next UpsertLeaf starts from is the root of the current leaf function *)
+Lemma RInv_current_root d : RInv d ->
+  match last_root (d_rollup d) with None => zh HEIGHT | Some r => r_hash r end = SRoot (gmap (d_vb d)) /\
+  (last_root (d_rollup d) = None -> d_vb d = []).
+Proof.
+  intros Hi. rewrite last_root_max_by, (ri_roots _ Hi).
+  rewrite (max_by_sorted rkey); [|apply StronglySorted_map; exact (ri_sorted _ Hi)].
+  rewrite olast_map. destruct (olast (d_vb d)) as [r|] eqn:E; cbn [option_map].
+  - split; [|discriminate]. cbn [root_of_row r_hash]. pose proof (olast_nth _ _ E) as Hn.
+    rewrite (ri_rer _ Hi _ _ Hn). f_equal. f_equal.
+    destruct (d_vb d) as [|x t]; [discriminate|]. cbn [length]. replace (S (S (length t) - 1))%nat with (length (x :: t)) by (cbn; lia).
+    apply firstn_all.
+  - destruct (d_vb d); [|discriminate]. split; [|reflexivity]. cbn [gmap fold_left].
+    pose proof (ssub_empty nodeN 0 HEIGHT 0) as Ee. cbv beta in Ee. rewrite Ee. apply zh_is_zero. apply height_le_32.
+Qed.
+
+(* isNewValueForRollupExitTree answers "the stored leaf differs from the event's exit root" *)
+Lemma is_new_value_spec d idx exit : RInv d -> idx <= mask32 -> exit <> 0 ->
+  is_new_value (d_rollup d) idx exit = negb (gmap (d_vb d) (N.to_nat idx) =? exit).
+Proof.
+  intros Hi Hidx Hex. unfold is_new_value. destruct (RInv_current_root d Hi) as [Hroot Hnone].
+  destruct (last_root (d_rollup d)) as [r|] eqn:El.
+  - unfold get_leaf, Gen.get_leaf. rewrite Hroot.
+    pose proof (walk_closed nodeN 0 nodeN_inj (lookup (d_rollup d)) (gmap (d_vb d)) HEIGHT 0 (bitN idx)) as Hw.
+    rewrite (path_index_exec idx Hidx) in Hw. cbv beta in Hw.
+    assert (Hc : CLN (lookup (d_rollup d)) (gmap (d_vb d)) HEIGHT 0).
+    { rewrite <- (firstn_all (d_vb d)). apply (ri_cl _ Hi). lia. }
+    specialize (Hw Hc). destruct (walk _ _ _ _) as [[s y]|]; [rewrite Hw; reflexivity|].
+    rewrite Hw. symmetry. apply negb_true_iff. apply N.eqb_neq. congruence.
+  - rewrite (Hnone eq_refl). cbn [gmap fold_left]. symmetry. apply negb_true_iff. apply N.eqb_neq. congruence.
+Qed.
+
+(* UpdatableTree.UpsertLeaf on a store satisfying the invariant: the root of the updated leaf function, store still closed *)
+Lemma upsert_f_spec f c d blk pos idx exit newroot t' c1 :
+  RInv d -> idx <= mask32 ->
+  upsert_f f c (d_rollup d) blk pos idx exit = inr (newroot, t', c1) ->
+  let g' := supd (gmap (d_vb d)) (N.to_nat idx) exit in
+  newroot = SRoot g' /\ t_roots t' = t_roots (d_rollup d) ++ [mkRoot newroot idx blk pos] /\
+  WF nodeN (lookup t') /\ CLN (lookup t') g' HEIGHT 0 /\
+  (forall g0, CLN (lookup (d_rollup d)) g0 HEIGHT 0 -> CLN (lookup t') g0 HEIGHT 0).
+Proof.
+  intros Hi Hidx H. cbv zeta. unfold upsert_f in H.
+  destruct (RInv_current_root d Hi) as [Hroot _]. rewrite Hroot in H. rewrite swalk_exec in H.
+  assert (Hc := ri_cl _ Hi (length (d_vb d)) (Nat.le_refl _)). rewrite firstn_all in Hc.
+  pose proof (upsert_correct nodeN 0 nodeN_inj N.eq_dec (lookup (d_rollup d)) (gmap (d_vb d)) HEIGHT 0 (bitN idx) exit
+                (ri_wf _ Hi) Hc) as Hu.
+  cbv zeta beta in Hu. rewrite (path_index_exec idx Hidx) in Hu.
+  destruct (upsert_climb nodeN 0 _ exit (bitN idx)) as [nr nodes] eqn:Eu. cbn [fst snd] in Hu.
+  destruct Hu as (Hr & Hw & Hcl & Hold).
+  unfold store_root_f in H. destruct (hits f c TRollupRoot); [discriminate H|].
+  unfold store_root in H. destruct (existsb _ _); [discriminate H|].
+  cbn [t_rht t_roots] in H.
+  destruct (store_nodes_f f TRollupRht _ (t_rht (d_rollup d)) nodes) as [[rht' c2]|] eqn:En; [|discriminate H].
+  inversion H; subst. apply store_nodes_f_ok in En. subst rht'.
+  assert (Em : forall y, lookup (mkTdb (t_roots (d_rollup d) ++ [mkRoot (SRoot (supd (gmap (d_vb d)) (N.to_nat idx) exit)) idx blk pos])
+                                       (store_nodes (t_rht (d_rollup d)) nodes)) y
+                         = ins_all N.eq_dec (lookup (d_rollup d)) nodes y).
+  { intros y. exact (lk_store_nodes nodes (t_rht (d_rollup d)) y). }
+  split; [reflexivity|]. split; [reflexivity|].
+  split; [eapply WF_ext_m; [intros y; symmetry; apply Em|exact Hw]|].
+  split; [eapply CL_ext_m; [intros y; symmetry; apply Em|exact Hcl]|].
+  intros g0 H0. eapply CL_ext_m; [intros y; symmetry; apply Em|]. apply Hold. exact H0.
+Qed.
+
+(* what a verify event means for the leaf function: the last NON-ZERO exit root verified for the rollup *)
+Definition apply_verify (g : nat -> N) (e : event) : nat -> N :=
+  match e with EVerify b => if vb_exit b =? 0 then g else supd g (ridx (vb_rid b)) (vb_exit b) | _ => g end.
+
+Lemma gmap_snoc rows r : gmap (rows ++ [r]) = gstep (gmap rows) r.
+Proof. unfold gmap. rewrite fold_left_app. reflexivity. Qed.
+Lemma firstn_snoc_le {A} (l : list A) x n : (n <= length l)%nat -> firstn n (l ++ [x]) = firstn n l.
+Proof. intros H. rewrite firstn_app. replace (n - length l)%nat with 0%nat by lia. cbn [firstn]. apply app_nil_r. Qed.
+
+Lemma process_event_rollup_tables f blk init x e x' : process_event f blk init x e = EvOk x' ->
+  match e with EVerify _ => True | _ => d_vb (x_db x') = d_vb (x_db x) /\ d_rollup (x_db x') = d_rollup (x_db x) end.
+Proof.
+  destruct e as [u|v|b|count root]; cbn [process_event]; intros H; [| | exact I |].
+  - destruct (big64 (u_pos u) || big64 (u_ts u)); [discriminate|].
+    destruct (hits f (x_cnt x) TLeaf); [discriminate|].
+    destruct (existsb _ (d_leaves (x_db x))); [discriminate|].
+    destruct (tree_add_f _ _ _ _ _ _ _ _) as [mem' [err|[t' c2]]]; [discriminate|].
+    inversion H; subst. split; reflexivity.
+  - destruct (last_root _) as [r|]; [|discriminate].
+    destruct (_ || _); [discriminate|]. inversion H; subst. split; reflexivity.
+  - destruct (hits f (x_cnt x) TInit); [discriminate|].
+    destruct (d_init (x_db x)); [discriminate|]. inversion H; subst. split; reflexivity.
+Qed.
+
+Lemma process_event_RInv f blk init x e x' :
+  RInv (x_db x) -> In blk (map fst (d_blocks (x_db x))) -> vb_small e ->
+  (forall r, In r (d_vb (x_db x)) -> forall p, In p (vb_posl e) -> klt (vb_key r) (blk, p)) ->
+  process_event f blk init x e = EvOk x' ->
+  RInv (x_db x') /\ (forall i, gmap (d_vb (x_db x')) i = apply_verify (gmap (d_vb (x_db x))) e i) /\
+  (forall r, In r (d_vb (x_db x')) -> In r (d_vb (x_db x)) \/ exists p, In p (vb_posl e) /\ vb_key r = (blk, p)).
+Proof.
+  intros Hi Hblk Hsmall Hbound Hev.
+  pose proof (process_event_tables _ _ _ _ _ _ Hev) as [Hb _].
+  pose proof (process_event_rollup_tables _ _ _ _ _ _ Hev) as Hrt.
+  assert (Hsame : d_vb (x_db x') = d_vb (x_db x) -> d_rollup (x_db x') = d_rollup (x_db x) ->
+                  RInv (x_db x') /\ (forall i, gmap (d_vb (x_db x')) i = gmap (d_vb (x_db x)) i) /\
+                  (forall r, In r (d_vb (x_db x')) -> In r (d_vb (x_db x)))).
+  { intros E1 E2. split; [|split; [intros i; rewrite E1; reflexivity|intros r Hr; rewrite E1 in Hr; exact Hr]].
+    destruct Hi as [H1 H2 H3 H4 H5 H6 H7]. constructor; rewrite ?E1, ?E2, ?Hb; assumption. }
+  destruct e as [u|v|b|count root]; try (destruct (Hsame (proj1 Hrt) (proj2 Hrt)) as (R1 & R2 & R3);
+    split; [exact R1|split; [exact R2|intros r Hr; left; apply R3; exact Hr]]).
+  cbn [process_event] in Hev. cbn [apply_verify vb_small vb_posl] in *.
+  destruct (vb_exit b =? 0) eqn:Ez.
+  { inversion Hev; subst. destruct (Hsame eq_refl eq_refl) as (R1 & R2 & R3).
+    split; [exact R1|split; [exact R2|intros r Hr; left; exact Hr]]. }
+  apply N.eqb_neq in Ez.
+  assert (Hidx : u32_pred (vb_rid b) <= mask32) by (apply u32_pred_small; exact Hsmall).
+  rewrite (is_new_value_spec _ _ _ Hi Hidx Ez) in Hev. rewrite negb_involutive in Hev.
+  destruct (gmap (d_vb (x_db x)) (N.to_nat (u32_pred (vb_rid b))) =? vb_exit b) eqn:Esame.
+  { (* unchanged exit root: skipped, and writing it again would not change the leaf function *)
+    inversion Hev; subst. destruct (Hsame eq_refl eq_refl) as (R1 & R2 & R3).
+    split; [exact R1|split; [|intros r Hr; left; exact Hr]].
+    intros i. unfold supd, ridx. apply N.eqb_eq in Esame. destruct (Nat.eqb_spec i (N.to_nat (u32_pred (vb_rid b)))); [subst i; exact Esame|reflexivity]. }
+  destruct (big64 (vb_pos b)); [discriminate|].
+  destruct (upsert_f f (x_cnt x) (d_rollup (x_db x)) blk (vb_pos b) (u32_pred (vb_rid b)) (vb_exit b)) as [err|[[newroot t'] c1]] eqn:Eu; [discriminate|].
+  destruct (big64 (vb_batch b)); [discriminate|].
+  destruct (hits f c1 TVerify); [discriminate|].
+  destruct (existsb _ (d_vb (x_db x))); [discriminate|]. inversion Hev; subst. clear Hev.
+  destruct (upsert_f_spec _ _ _ _ _ _ _ _ _ _ Hi Hidx Eu) as (Hnr & Hroots & Hw & Hcl & Hold). cbv zeta in Hnr, Hcl.
+  set (row := mkVbRow blk (vb_pos b) (vb_rid b) (vb_batch b) (vb_sroot b) (vb_exit b) (vb_agg b) newroot) in *.
+  cbn [x_db set_vb d_vb d_rollup d_blocks].
+  assert (Eg : gmap (d_vb (x_db x) ++ [row]) = supd (gmap (d_vb (x_db x))) (N.to_nat (u32_pred (vb_rid b))) (vb_exit b)).
+  { rewrite gmap_snoc. reflexivity. }
+  destruct Hi as [H1 H2 H3 H4 H5 H6 H7].
+  split; [|split].
+  - constructor; cbn [d_vb d_rollup d_blocks set_vb].
+    + exact Hw.
+    + rewrite Hroots, H2, map_app. reflexivity.
+    + intros n Hn. rewrite app_length in Hn. cbn [length] in Hn.
+      destruct (Nat.eq_dec n (length (d_vb (x_db x)) + 1)) as [->|Hne].
+      * rewrite firstn_all2 by (rewrite app_length; cbn; lia). rewrite Eg. exact Hcl.
+      * rewrite firstn_snoc_le by lia. apply Hold. apply H3. lia.
+    + intros n r Hn. apply nth_error_snoc in Hn as [Hn|[-> ->]].
+      * assert (Hlt : (n < length (d_vb (x_db x)))%nat) by (apply nth_error_Some; congruence).
+        rewrite firstn_snoc_le by lia. apply H4. exact Hn.
+      * rewrite firstn_all2 by (rewrite app_length; cbn; lia). rewrite Eg. exact Hnr.
+    + apply StronglySorted_snoc; [exact H5|]. intros y Hy. apply (Hbound y Hy (vb_pos b)). left. reflexivity.
+    + intros r Hr. apply in_app_or in Hr as [Hr|[<-|[]]]; [apply H6; exact Hr|exact Hblk].
+    + intros r Hr. apply in_app_or in Hr as [Hr|[<-|[]]]; [apply H7; exact Hr|]. split; [exact Hsmall|exact Ez].
+  - intros i. rewrite Eg. reflexivity.
+  - intros r Hr. apply in_app_or in Hr as [Hr|[<-|[]]]; [left; exact Hr|]. right. exists (vb_pos b). split; [left; reflexivity|reflexivity].
+Qed.
+
+Lemma sorted_tail_app {A} (R : A -> A -> Prop) (a b : list A) : StronglySorted R (a ++ b) -> StronglySorted R b.
+Proof. induction a as [|x a IH]; [auto|]. cbn [app]. intros H. inversion H; subst. apply IH. assumption. Qed.
+Lemma sorted_app_lt (a b : list N) p q : StronglySorted N.lt (a ++ b) -> In p a -> In q b -> p < q.
+Proof.
+  induction a as [|x a IH]; intros Hs Hp Hq; [destruct Hp|]. cbn [app] in Hs. inversion Hs as [|? ? Hs' Hall]; subst.
+  destruct Hp as [->|Hp]; [|apply IH; assumption]. rewrite Forall_forall in Hall. apply Hall. apply in_or_app. right. exact Hq.
+Qed.
+
+Lemma process_events_RInv f blk init : forall es x x',
+  StronglySorted N.lt (flat_map vb_posl es) -> Forall vb_small es ->
+  RInv (x_db x) -> In blk (map fst (d_blocks (x_db x))) ->
+  (forall r, In r (d_vb (x_db x)) -> forall p, In p (flat_map vb_posl es) -> klt (vb_key r) (blk, p)) ->
+  process_events f blk init x es = EvOk x' ->
+  RInv (x_db x') /\ (forall i, gmap (d_vb (x_db x')) i = fold_left apply_verify es (gmap (d_vb (x_db x))) i).
+Proof.
+  induction es as [|e es IH]; intros x x' Hpos Hsm Hinv Hblk Hbound Hev; cbn [process_events] in Hev.
+  - inversion Hev; subst. split; [exact Hinv|reflexivity].
+  - destruct (process_event f blk init x e) as [err mem added halt|x1] eqn:E1; [discriminate|].
+    cbn [flat_map] in Hpos, Hbound. inversion Hsm as [|? ? Hs1 Hsm']; subst.
+    pose proof (process_event_tables _ _ _ _ _ _ E1) as [Hb1 _].
+    destruct (process_event_RInv f blk init x e x1 Hinv Hblk Hs1) as (Hinv1 & Hg1 & Hnew); [|exact E1|].
+    { intros r Hr p Hp. apply (Hbound r Hr p). apply in_or_app. left. exact Hp. }
+    destruct (IH x1 x' (sorted_tail_app _ _ _ Hpos) Hsm' Hinv1) as [Hinv' Hg']; [rewrite Hb1; exact Hblk| |exact Hev|].
+    + intros r Hr p Hp. destruct (Hnew r Hr) as [Hold|(p0 & Hp0 & Hk)].
+      * apply (Hbound r Hold p). apply in_or_app. right. exact Hp.
+      * rewrite Hk. apply key_lt_spec. right. cbn [fst snd]. split; [reflexivity|]. exact (sorted_app_lt _ _ _ _ Hpos Hp0 Hp).
+    + split; [exact Hinv'|]. intros i. rewrite Hg'. cbn [fold_left].
+      (* fold_left respects pointwise equality of the starting leaf function *)
+      clear -Hg1. revert i. generalize (gmap (d_vb (x_db x1))) (apply_verify (gmap (d_vb (x_db x))) e) Hg1.
+      induction es as [|e2 es IHes]; intros g1 g2 Hg i; cbn [fold_left]; [apply Hg|].
+      apply IHes. intros j. destruct e2 as [u|v|b|c r]; cbn [apply_verify]; try apply Hg.
+      destruct (vb_exit b =? 0); [apply Hg|]. unfold supd. destruct (Nat.eqb j (ridx (vb_rid b))); [reflexivity|apply Hg].
+Qed.
+
+Theorem process_block_RInv f st k r st' : RInv (st_db st) -> block_ordered st k ->
+  process_block f st k = (r, st') ->
+  RInv (st_db st') /\
+  (r = None -> forall i, gmap (d_vb (st_db st')) i = fold_left apply_verify (k_events k) (gmap (d_vb (st_db st))) i).
+Proof.
+  intros Hinv (Hord & _ & Hpos & Hsm & _) H. destruct r as [e|].
+  { rewrite (process_block_error_keeps_db _ _ _ _ _ H). split; [exact Hinv|discriminate]. }
+  unfold process_block in H.
+  destruct (st_halted st); [discriminate|].
+  destruct (big64 (k_num k)); [discriminate|].
+  destruct (hits f _ TBlock); [discriminate|].
+  destruct (existsb _ _); [discriminate|].
+  set (d := st_db st) in *.
+  set (d1 := mkLdb (d_blocks d ++ [(k_num k, k_hash k)]) (d_leaves d) (d_vb d) (d_init d) (d_l1 d) (d_rollup d)) in *.
+  assert (Hinv1 : RInv d1).
+  { destruct Hinv as [H1 H2 H3 H4 H5 H6 H7]. constructor; unfold d1; cbn [d_vb d_rollup d_blocks]; try assumption.
+    intros r Hr. rewrite map_app. apply in_or_app. left. apply H6. exact Hr. }
+  destruct (process_events _ _ _ _ _) as [err mem added halt|x] eqn:Ev; [discriminate|].
+  destruct (hits f (x_cnt x) TCommit); [discriminate|]. inversion H; subst. cbn [st_db].
+  pose proof (fun H1 H2 H3 => process_events_RInv f (k_num k) _ (k_events k) _ x Hpos Hsm H1 H2 H3 Ev) as HR.
+  destruct HR as [R1 R2]; [exact Hinv1| | |].
+  - unfold d1. cbn [x_db d_blocks]. rewrite map_app. apply in_or_app. right. left. reflexivity.
+  - intros r Hr p _. apply key_lt_spec. left. cbn [fst vb_key].
+    unfold d1 in Hr. cbn [x_db d_vb] in Hr. pose proof (ri_blocks _ Hinv r Hr) as Hb.
+    apply in_map_iff in Hb as (b & Eb & Hb). rewrite <- Eb. apply Hord. exact Hb.
+  - split; [exact R1|]. intros _ i. apply R2.
+Qed.
+
+(* a downward-closed filter of a sorted table is a prefix *)
+Lemma filter_sorted_firstn {A} (R : A -> A -> Prop) p (l : list A) :
+  StronglySorted R l -> (forall a b, R a b -> p b = true -> p a = true) ->
+  filter p l = firstn (length (filter p l)) l.
+Proof.
+  induction 1 as [|y l Hs IH Hy]; intros Hmono; cbn [filter]; [reflexivity|].
+  destruct (p y) eqn:Py.
+  - cbn [length firstn]. f_equal. apply IH. exact Hmono.
+  - assert (E : filter p l = []).
+    { clear IH. induction l as [|z l IHl]; [reflexivity|]. cbn [filter].
+      inversion Hy as [|? ? Hz Hy']; subst. inversion Hs as [|? ? Hs' Hz']; subst.
+      destruct (p z) eqn:Pz; [rewrite (Hmono _ _ Hz Pz) in Py; discriminate|]. apply IHl; assumption. }
+    rewrite E. reflexivity.
+Qed.
+Lemma filter_map_comm {A B} (f : A -> B) (p : B -> bool) l : filter p (map f l) = map f (filter (fun x => p (f x)) l).
+Proof. induction l as [|x l IH]; [reflexivity|]. cbn [map filter]. destruct (p (f x)); cbn [map]; rewrite IH; reflexivity. Qed.
+
+Lemma nth_error_firstn_some {A} k : forall (l : list A) n x, nth_error (firstn k l) n = Some x -> nth_error l n = Some x /\ (n < k)%nat.
+Proof.
+  induction k as [|k IH]; intros l n x H; [destruct n; discriminate|].
+  destruct l as [|y l]; [destruct n; discriminate|]. cbn [firstn] in H. destruct n as [|n]; cbn [nth_error] in *.
+  - split; [exact H|lia].
+  - destruct (IH l n x H). split; [assumption|lia].
+Qed.
+
+Theorem reorg_RInv st b : RInv (st_db st) -> RInv (st_db (reorg st b)).
+Proof.
+  intros [H1 H2 H3 H4 H5 H6 H7]. unfold reorg. cbn [st_db].
+  set (rows := d_vb (st_db st)) in *.
+  set (keep := filter (fun r => vr_block r <? b) rows).
+  assert (Epre : keep = firstn (length keep) rows).
+  { apply (filter_sorted_firstn (fun a b => klt (vb_key a) (vb_key b))); [exact H5|].
+    intros x y Hxy Hy. apply key_lt_spec in Hxy. unfold vb_key in Hxy. cbn [fst snd] in Hxy. apply N.ltb_lt in Hy. apply N.ltb_lt. lia. }
+  assert (Hlen : (length keep <= length rows)%nat) by (rewrite Epre at 1; rewrite firstn_length; lia).
+  constructor; cbn [d_vb d_rollup d_blocks]; fold keep.
+  - exact H1.
+  - unfold tree_reorg. cbn [t_roots]. rewrite H2, filter_map_comm. reflexivity.
+  - intros n Hn. unfold tree_reorg, lookup. cbn [t_rht]. rewrite Epre, firstn_firstn.
+    replace (Nat.min n (length keep)) with n by lia. apply H3. lia.
+  - intros n r Hn. rewrite Epre in Hn. apply nth_error_firstn_some in Hn as [Hn Hlt].
+    rewrite Epre, firstn_firstn. replace (Nat.min (S n) (length keep)) with (S n) by lia. apply H4. exact Hn.
+  - apply StronglySorted_filter. exact H5.
+  - intros r Hr. apply filter_In in Hr as [Hr Hb]. pose proof (H6 r Hr) as Hin.
+    apply in_map_iff in Hin as (x & Ex & Hx). apply in_map_iff. exists x. split; [exact Ex|].
+    apply filter_In. split; [exact Hx|]. rewrite Ex. exact Hb.
+  - intros r Hr. apply filter_In in Hr as [Hr _]. apply H7. exact Hr.
+Qed.
+
+Theorem RInv_run ops : forall st, RInv (st_db st) -> hist_ordered ops st -> RInv (st_db (run_hist ops st)).
+Proof.
+  induction ops as [|o t IH]; intros st Hinv Hord; cbn [run_hist fold_left]; [exact Hinv|].
+  destruct Hord as [Ho Ht]. apply IH; [|exact Ht].
+  destruct o as [k f|b|]; cbn [step].
+  - destruct (process_block f st k) as [r st'] eqn:E. cbn [snd]. exact (proj1 (process_block_RInv f st k r st' Hinv Ho E)).
+  - apply reorg_RInv. exact Hinv.
+  - exact Hinv.
+Qed.
+
+(* ---------- what every reachable store answers about the rollup exit tree ---------- *)
+Theorem rollup_tree_invariant ops : hist_ordered ops lstate_new -> RInv (st_db (run_hist ops lstate_new)).
+Proof. intros H. apply RInv_run; [apply RInv_empty|exact H]. Qed.
+
+(* the root recorded with the n-th accepted update (verify_batches.rollup_exit_root and the tree's root row) is the reference
+   sparse Merkle root of the leaf map after the first n+1 accepted updates *)
+Theorem rollup_root_is_sparse_root ops : hist_ordered ops lstate_new ->
+  let d := st_db (run_hist ops lstate_new) in
+  forall n r, nth_error (d_vb d) n = Some r ->
+    vr_rer r = sroot nodeN (gmap (firstn (S n) (d_vb d))) HEIGHT /\
+    nth_error (t_roots (d_rollup d)) n = Some (mkRoot (vr_rer r) (u32_pred (vr_rid r)) (vr_block r) (vr_pos r)).
+Proof.
+  intros Hord d n r Hn. pose proof (rollup_tree_invariant ops Hord) as Hi. fold d in Hi. split.
+  - exact (ri_rer _ Hi n r Hn).
+  - rewrite (ri_roots _ Hi). apply (map_nth_error root_of_row). exact Hn.
+Qed.
+
+(* a successfully processed block moves the leaf map exactly by "last non-zero exit root verified per rollup":
+   zero exit roots are ignored, unchanged ones change nothing, rollup id 0 lands on position 2^32-1 *)
+Theorem rollup_tree_is_last_nonzero f st k st' : RInv (st_db st) -> block_ordered st k ->
+  process_block f st k = (None, st') ->
+  forall i, gmap (d_vb (st_db st')) i = fold_left apply_verify (k_events k) (gmap (d_vb (st_db st))) i.
+Proof. intros Hi Ho H. exact (proj2 (process_block_RInv f st k None st' Hi Ho H) eq_refl). Qed.
+
+(* GetLocalExitRoot(id, last recorded root): the stored leaf of rollup id; "not found" only for a rollup that has no exit root *)
+Theorem rollup_leaf_lookup d id : RInv d -> 1 <= id -> id - 1 <= mask32 -> d_vb d <> [] ->
+  match local_exit_root d id (SRoot (gmap (d_vb d))) with
+  | inr v => v = gmap (d_vb d) (N.to_nat (id - 1))
+  | inl QNotFound => gmap (d_vb d) (N.to_nat (id - 1)) = 0
+  | inl _ => False
+  end.
+Proof.
+  intros Hi H1 Hidx _. unfold local_exit_root. destruct (N.eqb_spec id 0) as [->|_]; [lia|].
+  unfold get_leaf, Gen.get_leaf.
+  pose proof (walk_closed nodeN 0 nodeN_inj (lookup (d_rollup d)) (gmap (d_vb d)) HEIGHT 0 (bitN (id - 1))) as Hw.
+  rewrite (path_index_exec _ Hidx) in Hw. cbv beta in Hw.
+  assert (Hc := ri_cl _ Hi (length (d_vb d)) (Nat.le_refl _)). rewrite firstn_all in Hc.
+  specialize (Hw Hc). destruct (walk _ _ _ _) as [[s y]|]; exact Hw.
+Qed.
+
+(* GetRollupExitTreeMerkleProof(id, R) for every recorded version R: the proof verifies with that version's leaf of rollup id *)
+Theorem rollup_proof_verifies d id n : RInv d -> 1 <= id -> id - 1 <= mask32 -> (n <= length (d_vb d))%nat ->
+  let g := gmap (firstn n (d_vb d)) in
+  calculate_root (g (N.to_nat (id - 1))) (rollup_merkle_proof d id (SRoot g)) (id - 1) = SRoot g.
+Proof.
+  intros Hi H1 Hidx Hn g. unfold rollup_merkle_proof. destruct (N.eqb_spec id 0) as [->|_]; [lia|].
+  unfold get_proof, Gen.get_proof, calculate_root, Gen.calculate_root. rewrite swalk_exec.
+  pose proof (proof_verifies_closed nodeN 0 nodeN_inj (lookup (d_rollup d)) g HEIGHT 0 (bitN (id - 1)) (ri_cl _ Hi n Hn)) as Hp.
+  cbv beta in Hp. rewrite (path_index_exec _ Hidx) in Hp. exact Hp.
+Qed.
+End Rollup.
+
+(* ====================================================================================================
+   5. The L1 info tree: every reachable store is a reachable state of the generic tree store (Proofs/TreeStoreProofs.v)
+   ==================================================================================================== *)
+Lemma tree_add_f_ok f c db mem blk bpos idx leaf mem' db' c' :
+  tree_add_f f c db mem blk bpos idx leaf = (mem', inr (db', c')) ->
+  Gen.add_leaf_exec HEIGHT nodeN zh db mem blk bpos idx leaf = (mem', inr db').
+Proof.
+  unfold tree_add_f, Gen.add_leaf_exec, init_cache.
+  assert (Hgo : forall m0,
+    (let '(root, c'0, nodes) := climb3 nodeN zh HEIGHT 0 (bitN idx) leaf (cache_of_list 0 (m_cache m0)) in
+     let mem1 := mkTmem (m_last m0) (cache_to_list HEIGHT c'0) in
+     match store_root_f f TL1Root c db (mkRoot root idx blk bpos) with
+     | inl e => (mem1, inl e)
+     | inr (db1, c1) => match store_nodes_f f TL1Rht c1 (t_rht db1) nodes with
+                        | None => (mem1, inl PFault)
+                        | Some (rht', c2) => (mem1, inr (mkTdb (t_roots db1) rht', c2)) end
+     end) = (mem', inr (db', c')) ->
+    (let '(root, c'0, nodes) := climb3 nodeN zh HEIGHT 0 (bitN idx) leaf (cache_of_list 0 (m_cache m0)) in
+     let mem1 := mkTmem (m_last m0) (cache_to_list HEIGHT c'0) in
+     match store_root db (mkRoot root idx blk bpos) with
+     | None => (mem1, inl EConstraint)
+     | Some db1 => (mem1, inr (mkTdb (t_roots db1) (store_nodes (t_rht db1) nodes)))
+     end) = (mem', inr db')).
+  { intros m0. destruct (climb3 _ _ _ _ _ _ _) as [[root c0] nodes]. cbv zeta. unfold store_root_f.
+    destruct (hits f c TL1Root); [discriminate|]. destruct (store_root db _) as [db1|]; [|discriminate].
+    destruct (store_nodes_f _ _ _ _ _) as [[rht' c2]|] eqn:En; [|discriminate].
+    intros H. inversion H; subst. apply store_nodes_f_ok in En. subst. reflexivity. }
+  destruct (Z.eqb (Z.of_N idx) (m_last mem + 1)); [apply Hgo|].
+  destruct (Gen.init_cache HEIGHT db) as [e|m1]; [discriminate|].
+  destruct (Z.eqb (Z.of_N idx) (m_last m1 + 1)); [apply Hgo|discriminate].
+Qed.
+Lemma tree_add_f_fail f c db mem blk bpos idx leaf mem' e mem2 db2 :
+  tree_add_f f c db mem blk bpos idx leaf = (mem', inl e) ->
+  Gen.add_leaf_exec HEIGHT nodeN zh db mem blk bpos idx leaf = (mem2, inr db2) -> mem' = mem2.
+Proof.
+  unfold tree_add_f, Gen.add_leaf_exec, init_cache.
+  assert (Hgo : forall m0,
+    (let '(root, c'0, nodes) := climb3 nodeN zh HEIGHT 0 (bitN idx) leaf (cache_of_list 0 (m_cache m0)) in
+     let mem1 := mkTmem (m_last m0) (cache_to_list HEIGHT c'0) in
+     match store_root_f f TL1Root c db (mkRoot root idx blk bpos) with
+     | inl e => (mem1, inl e)
+     | inr (db1, c1) => match store_nodes_f f TL1Rht c1 (t_rht db1) nodes with
+                        | None => (mem1, inl PFault)
+                        | Some (rht', c2) => (mem1, inr (mkTdb (t_roots db1) rht', c2)) end
+     end) = (mem', inl e) ->
+    (let '(root, c'0, nodes) := climb3 nodeN zh HEIGHT 0 (bitN idx) leaf (cache_of_list 0 (m_cache m0)) in
+     let mem1 := mkTmem (m_last m0) (cache_to_list HEIGHT c'0) in
+     match store_root db (mkRoot root idx blk bpos) with
+     | None => (mem1, inl EConstraint)
+     | Some db1 => (mem1, inr (mkTdb (t_roots db1) (store_nodes (t_rht db1) nodes)))
+     end) = (mem2, inr db2) -> mem' = mem2).
+  { intros m0. destruct (climb3 _ _ _ _ _ _ _) as [[root c0] nodes]. cbv zeta. intros H1 H2.
+    assert (E2 : mem2 = mkTmem (m_last m0) (cache_to_list HEIGHT c0)) by (destruct (store_root db _); inversion H2; reflexivity).
+    assert (E1 : mem' = mkTmem (m_last m0) (cache_to_list HEIGHT c0)).
+    { destruct (store_root_f _ _ _ _ _) as [e0|[db1 c1]]; [inversion H1; reflexivity|].
+      destruct (store_nodes_f _ _ _ _ _) as [[rht' c2]|]; inversion H1; reflexivity. }
+    congruence. }
+  destruct (Z.eqb (Z.of_N idx) (m_last mem + 1)); [apply Hgo|].
+  destruct (Gen.init_cache HEIGHT db) as [e0|m1]; [discriminate|].
+  destruct (Z.eqb (Z.of_N idx) (m_last m1 + 1)); [apply Hgo|discriminate].
+Qed.
+
+Section L1Tree.
+Hypothesis nodeN_inj : forall a b c d, nodeN a b = nodeN c d -> a = c /\ b = d.
+(* the zero hash is not the digest of a leaf preimage (idealisation of Keccak, as in the generic tree-store theorems) *)
+Hypothesis leaf_nonzero : forall ger parent ts, leaf_hash ger parent ts <> 0.
+
+Notation ReachT := (Reach HEIGHT nodeN zh).
+Lemma Hzh32 : forall h, (h <= HEIGHT)%nat -> zh h = zero nodeN 0 h.
+Proof. intros h Hh. apply zh_is_zero. pose proof height_le_32. lia. Qed.
+
+Definition hist_of (leaves : list leaf_row) : hist := map (fun l => (l_hash l, (l_block l, l_bpos l))) leaves.
+Definition TreeReach (d : ldb) (mem : tmem) : Prop := ReachT (d_l1 d) mem (hist_of (d_leaves d)).
+
+Lemma hist_of_length ls : length (hist_of ls) = length ls.
+Proof. apply map_length. Qed.
+
+(* the positions already used in the tree are those of the stored leaves *)
+Lemma fresh_from_leaves d mem blk pos : TreeReach d mem ->
+  (forall l, In l (d_leaves d) -> klt (leaf_key l) (blk, pos)) -> fresh_pos (d_l1 d) blk pos.
+Proof.
+  intros HR Hb. destruct (Reach_inv HEIGHT nodeN nodeN_inj zh Hzh32 _ _ _ HR) as (_ & _ & _ & Hlab).
+  unfold fresh_pos. apply Forall_forall. intros r Hr.
+  assert (Hin : In (r_block r, r_bpos r) (map snd (hist_of (d_leaves d)))).
+  { unfold labels_ok in Hlab. rewrite <- Hlab. apply (in_map (fun r => (r_block r, r_bpos r))). exact Hr. }
+  unfold hist_of in Hin. rewrite map_map in Hin. cbn [snd] in Hin. apply in_map_iff in Hin as (l & El & Hl).
+  specialize (Hb l Hl). apply key_lt_spec in Hb. unfold leaf_key in Hb. cbn [fst snd] in Hb.
+  inversion El as [[E1 E2]]. unfold row_lt. cbn [r_block r_bpos]. rewrite <- E1, <- E2. exact Hb.
+Qed.
+
+(* a successful info update, as the tree sees it *)
+Lemma process_event_update_inv f blk init x u x' : process_event f blk init x (EUpdate u) = EvOk x' ->
+  let ger := ger_hash (u_mer u) (u_rer u) in
+  exists mem' c1 c2,
+    tree_add_f f c1 (d_l1 (x_db x)) (x_mem x) blk (u_pos u) (init + N.of_nat (x_added x)) (leaf_hash ger (u_parent u) (u_ts u))
+      = (mem', inr (d_l1 (x_db x'), c2)) /\ x_mem x' = mem_commit_leaf mem'.
+Proof.
+  cbn [process_event]. intros H.
+  destruct (big64 (u_pos u) || big64 (u_ts u)); [discriminate|].
+  destruct (hits f (x_cnt x) TLeaf); [discriminate|].
+  destruct (existsb _ (d_leaves (x_db x))); [discriminate|].
+  destruct (tree_add_f _ _ _ _ _ _ _ _) as [mem' [err|[t' c2]]] eqn:Et; [discriminate|].
+  inversion H; subst. cbn [x_db x_mem set_leaves d_l1]. exists mem', (bump (x_cnt x) TLeaf), c2. split; [exact Et|reflexivity].
+Qed.
+(* events other than info updates never touch the in-memory tree, whether they succeed or fail *)
+Lemma process_event_other_mem f blk init x e : (forall u, e <> EUpdate u) ->
+  match process_event f blk init x e with
+  | EvOk x' => True
+  | EvFail _ mem added _ => mem = x_mem x /\ added = x_added x
+  end.
+Proof.
+  intros Hne. destruct e as [u|v|b|count root]; [exfalso; exact (Hne u eq_refl)| | |]; cbn [process_event].
+  - destruct (last_root _); [|split; reflexivity]. destruct (_ || _); [split; reflexivity|exact I].
+  - destruct (vb_exit b =? 0); [exact I|]. destruct (negb _); [exact I|].
+    destruct (big64 (vb_pos b)); [split; reflexivity|].
+    destruct (upsert_f _ _ _ _ _ _ _) as [err|[[nr t'] c1]]; [split; reflexivity|].
+    destruct (big64 (vb_batch b)); [split; reflexivity|]. destruct (hits f c1 TVerify); [split; reflexivity|].
+    destruct (existsb _ _); [split; reflexivity|exact I].
+  - destruct (hits f (x_cnt x) TInit); [split; reflexivity|]. destruct (d_init (x_db x)); [split; reflexivity|exact I].
+Qed.
+
+Lemma process_event_Reach f blk init x e :
+  TreeReach (x_db x) (x_mem x) -> idxrel init x -> (length (d_leaves (x_db x)) < 2 ^ HEIGHT)%nat ->
+  (forall l, In l (d_leaves (x_db x)) -> forall p, In p (upd_pos e) -> klt (leaf_key l) (blk, p)) ->
+  match process_event f blk init x e with
+  | EvOk x' => TreeReach (x_db x') (x_mem x')
+  | EvFail _ mem added _ => TreeReach (x_db x) mem /\ added = x_added x
+  end.
+Proof.
+  intros HR Hrel Hlen Hbound.
+  destruct e as [u|v|b|count root].
+  2,3,4: (match goal with |- match process_event _ _ _ _ ?e with _ => _ end =>
+            pose proof (process_event_other_mem f blk init x e ltac:(intros u0; discriminate)) as Hm;
+            pose proof (process_event_tables f blk init x e) as Ht end;
+          destruct (process_event _ _ _ _ _) as [err mem added halt|x'];
+          [destruct Hm as [-> ->]; split; [exact HR|reflexivity]
+          |destruct (Ht x' eq_refl) as (_ & Hl & _ & Hd & Hmem); unfold TreeReach; rewrite Hl, Hd, Hmem; exact HR]).
+  (* info update *)
+  set (ger := ger_hash (u_mer u) (u_rer u)).
+  set (lh := leaf_hash ger (u_parent u) (u_ts u)).
+  assert (Hfresh : fresh_pos (d_l1 (x_db x)) blk (u_pos u)).
+  { apply (fresh_from_leaves _ (x_mem x)); [exact HR|]. intros l Hl. apply (Hbound l Hl). left. reflexivity. }
+  assert (Eidx : init + N.of_nat (x_added x) = N.of_nat (length (hist_of (d_leaves (x_db x))))).
+  { rewrite hist_of_length. exact Hrel. }
+  assert (Hlen' : (length (hist_of (d_leaves (x_db x))) < 2 ^ HEIGHT)%nat) by (rewrite hist_of_length; exact Hlen).
+  destruct (process_event f blk init x (EUpdate u)) as [err mem added halt|x'] eqn:Ev.
+  - (* failure: before AddLeaf the memory is untouched; inside AddLeaf it is the memory of an abandoned append *)
+    cbn [process_event] in Ev.
+    destruct (big64 (u_pos u) || big64 (u_ts u)); [inversion Ev; subst; split; [exact HR|reflexivity]|].
+    destruct (hits f (x_cnt x) TLeaf); [inversion Ev; subst; split; [exact HR|reflexivity]|].
+    destruct (existsb _ (d_leaves (x_db x))); [inversion Ev; subst; split; [exact HR|reflexivity]|].
+    fold ger lh in Ev.
+    destruct (tree_add_f _ _ _ _ _ _ _ _) as [mem' [e|[t' c2]]] eqn:Et; [|discriminate].
+    inversion Ev; subst. split; [|reflexivity].
+    destruct (store_add_succeeds HEIGHT nodeN nodeN_inj zh Hzh32 _ _ _ blk (u_pos u) lh HR Hfresh (leaf_nonzero _ _ _) Hlen') as (mem2 & db2 & E2).
+    rewrite <- Eidx in E2. pose proof (tree_add_f_fail _ _ _ _ _ _ _ _ _ _ _ _ Et E2) as ->.
+    unfold TreeReach. rewrite Eidx in E2.
+    exact (R_abort HEIGHT nodeN zh _ _ _ blk (u_pos u) lh mem2 db2 HR Hfresh (leaf_nonzero _ _ _) Hlen' E2).
+  - destruct (process_event_update_inv _ _ _ _ _ _ Ev) as (mem' & c1 & c2 & Et & Em). cbv zeta in Et. fold ger lh in Et.
+    pose proof (process_event_tables _ _ _ _ _ _ Ev) as [_ Ht]. cbv zeta in Ht. destruct Ht as (Hl & _).
+    apply tree_add_f_ok in Et. rewrite Eidx in Et.
+    pose proof (R_add HEIGHT nodeN zh _ _ _ blk (u_pos u) lh mem' _ HR Hfresh (leaf_nonzero _ _ _) Hlen' Et) as HR'.
+    unfold TreeReach. rewrite Em, Hl. unfold hist_of in *. rewrite map_app. cbn [map l_hash l_block l_bpos]. exact HR'.
+Qed.
+
+(* the events of a block, one after the other; `d0`/`mem0` = the committed state the transaction started from *)
+Lemma process_events_Reach f blk init d0 mem0 : forall es x,
+  StronglySorted N.lt (flat_map upd_pos es) ->
+  LInv (x_db x) -> In blk (map fst (d_blocks (x_db x))) -> idxrel init x ->
+  (forall l, In l (d_leaves (x_db x)) -> forall p, In p (flat_map upd_pos es) -> klt (leaf_key l) (blk, p)) ->
+  (length (d_leaves (x_db x)) + length (flat_map upd_pos es) < 2 ^ HEIGHT)%nat ->
+  TreeReach (x_db x) (x_mem x) -> TreeReach d0 mem0 ->
+  (x_added x = O -> d_l1 (x_db x) = d_l1 d0 /\ d_leaves (x_db x) = d_leaves d0) ->
+  match process_events f blk init x es with
+  | EvOk x' => TreeReach (x_db x') (x_mem x') /\ (x_added x' = O -> d_l1 (x_db x') = d_l1 d0 /\ d_leaves (x_db x') = d_leaves d0)
+  | EvFail _ mem added _ => TreeReach d0 (rollback_mem mem added)
+  end.
+Proof.
+  induction es as [|e es IH]; intros x Hpos Hinv Hblk Hrel Hbound Hlen HR HR0 Hsame; cbn [process_events].
+  - split; assumption.
+  - cbn [flat_map] in Hpos, Hbound, Hlen. rewrite app_length in Hlen.
+    pose proof (process_event_Reach f blk init x e HR Hrel ltac:(lia)
+                 (fun l Hl p Hp => Hbound l Hl p (in_or_app _ _ _ (or_introl Hp)))) as Hev.
+    destruct (process_event f blk init x e) as [err mem added halt|x1] eqn:E1.
+    + (* the block fails here: rollback *)
+      destruct Hev as [HRm ->]. unfold rollback_mem, Gen.rollback_mem.
+      destruct (x_added x) eqn:Ea.
+      * destruct (Hsame eq_refl) as [E2 E3]. unfold TreeReach in *. rewrite <- E2, <- E3. exact HRm.
+      * unfold TreeReach. exact (R_inval HEIGHT nodeN zh _ _ _ _ HR0).
+    + destruct (process_event_LInv f blk init x e x1 Hinv Hblk Hrel
+                  (fun l Hl p Hp => Hbound l Hl p (in_or_app _ _ _ (or_introl Hp))) E1) as (Hinv1 & Hrel1 & Hb1 & Hnew).
+      pose proof (process_event_tables _ _ _ _ _ _ E1) as [_ Ht].
+      apply IH; try assumption.
+      * exact (sorted_tail_app _ _ _ Hpos).
+      * rewrite Hb1. exact Hblk.
+      * intros l Hl p Hp. destruct (Hnew l Hl) as [Hold|(p0 & Hp0 & Hk)].
+        -- apply (Hbound l Hold p). apply in_or_app. right. exact Hp.
+        -- rewrite Hk. apply key_lt_spec. right. cbn [fst snd]. split; [reflexivity|]. exact (sorted_app_lt _ _ _ _ Hpos Hp0 Hp).
+      * destruct e as [u|v|b|count root]; cbv zeta in Ht.
+        -- destruct Ht as (Hl & _). rewrite Hl, app_length. cbn [length upd_pos] in *. lia.
+        -- destruct Ht as (Hl & _). rewrite Hl. cbn [upd_pos length] in *. lia.
+        -- destruct Ht as (Hl & _). rewrite Hl. cbn [upd_pos length] in *. lia.
+        -- destruct Ht as (Hl & _). rewrite Hl. cbn [upd_pos length] in *. lia.
+      * destruct e as [u|v|b|count root]; cbv zeta in Ht.
+        -- destruct Ht as (_ & Ha & _). intros E0. rewrite Ha in E0. discriminate.
+        -- destruct Ht as (Hl & Ha & Hd & _). intros E0. rewrite Ha in E0. rewrite Hl, Hd. apply Hsame. exact E0.
+        -- destruct Ht as (Hl & Ha & Hd & _). intros E0. rewrite Ha in E0. rewrite Hl, Hd. apply Hsame. exact E0.
+        -- destruct Ht as (Hl & Ha & Hd & _). intros E0. rewrite Ha in E0. rewrite Hl, Hd. apply Hsame. exact E0.
+Qed.
+
+Theorem process_block_Reach f st k r st' : LInv (st_db st) -> TreeReach (st_db st) (st_mem st) -> block_ordered st k ->
+  process_block f st k = (r, st') -> TreeReach (st_db st') (st_mem st').
+Proof.
+  intros Hinv HR (Hord & Hpos & _ & _ & Hlen) H. unfold process_block in H.
+  destruct (st_halted st); [inversion H; subst; exact HR|].
+  destruct (big64 (k_num k)); [inversion H; subst; exact HR|].
+  destruct (hits f _ TBlock); [inversion H; subst; exact HR|].
+  destruct (existsb _ _); [inversion H; subst; exact HR|].
+  set (d := st_db st) in *.
+  set (d1 := mkLdb (d_blocks d ++ [(k_num k, k_hash k)]) (d_leaves d) (d_vb d) (d_init d) (d_l1 d) (d_rollup d)) in *.
+  assert (Hinv1 : LInv d1).
+  { destruct Hinv as [H1 H2 H3 H4 H5]. constructor; unfold d1; cbn [d_leaves d_blocks]; try assumption.
+    intros l Hl. rewrite map_app. apply in_or_app. left. apply H3. exact Hl. }
+  set (x0 := mkTx d1 (st_mem st) (bump (fun _ => O) TBlock) O) in *.
+  assert (Hev := process_events_Reach f (k_num k) (match last_leaf d1 with None => 0 | Some l => l_idx l + 1 end) d (st_mem st)
+                (k_events k) x0 Hpos Hinv1).
+  assert (Hblk1 : In (k_num k) (map fst (d_blocks (x_db x0)))).
+  { unfold x0, d1. cbn [x_db d_blocks]. rewrite map_app. apply in_or_app. right. left. reflexivity. }
+  assert (Hrel1 : idxrel (match last_leaf d1 with None => 0 | Some l => l_idx l + 1 end) x0).
+  { unfold idxrel, x0. cbn [x_added x_db]. rewrite (last_leaf_index d1 Hinv1). cbn [N.of_nat]. lia. }
+  assert (Hb1 : forall l, In l (d_leaves (x_db x0)) -> forall p, In p (flat_map upd_pos (k_events k)) -> klt (leaf_key l) (k_num k, p)).
+  { intros l Hl p _. apply key_lt_spec. left. cbn [fst leaf_key].
+    unfold x0, d1 in Hl. cbn [x_db d_leaves] in Hl. pose proof (li_blocks _ Hinv l Hl) as Hb.
+    apply in_map_iff in Hb as (b & Eb & Hb). rewrite <- Eb. apply Hord. exact Hb. }
+  specialize (Hev Hblk1 Hrel1 Hb1 Hlen HR HR (fun _ => conj eq_refl eq_refl)).
+  destruct (process_events _ _ _ _ _) as [err mem added halt|x] eqn:Ev.
+  - inversion H; subst. cbn [st_db st_mem]. exact Hev.
+  - destruct Hev as [HRx Hs]. destruct (hits f (x_cnt x) TCommit).
+    + inversion H; subst. cbn [st_db st_mem]. unfold rollback_mem, Gen.rollback_mem. destruct (x_added x).
+      * destruct (Hs eq_refl) as [E2 E3]. unfold TreeReach in *. rewrite <- E2, <- E3. exact HRx.
+      * unfold TreeReach. exact (R_inval HEIGHT nodeN zh _ _ _ _ HR).
+    + inversion H; subst. exact HRx.
+Qed.
+
+Lemma count_filter_map {A B} (f : A -> B) (p : B -> bool) l : length (filter p (map f l)) = length (filter (fun x => p (f x)) l).
+Proof. rewrite filter_map_comm, map_length. reflexivity. Qed.
+
+Theorem reorg_Reach st b : LInv (st_db st) -> TreeReach (st_db st) (st_mem st) -> TreeReach (st_db (reorg st b)) (st_mem (reorg st b)).
+Proof.
+  intros Hinv HR. unfold TreeReach, reorg. cbn [st_db st_mem d_l1 d_leaves].
+  pose proof (R_reorg HEIGHT nodeN zh _ _ _ b (m_cache (st_mem st)) HR) as H.
+  destruct (Reach_inv HEIGHT nodeN nodeN_inj zh Hzh32 _ _ _ HR) as (_ & _ & _ & Hlab).
+  (* the surviving leaves are the same prefix as the surviving roots: both tables carry the same (block, position) labels *)
+  set (leaves := d_leaves (st_db st)) in *.
+  assert (Ecount : length (t_roots (tree_reorg (d_l1 (st_db st)) b)) = length (filter (fun r => l_block r <? b) leaves)).
+  { unfold tree_reorg. cbn [t_roots]. unfold labels_ok in Hlab.
+    transitivity (length (filter (fun q : N * N => fst q <? b) (map (fun r => (r_block r, r_bpos r)) (t_roots (d_l1 (st_db st)))))).
+    - rewrite count_filter_map. reflexivity.
+    - rewrite Hlab. unfold hist_of. rewrite map_map. cbn [snd]. rewrite count_filter_map. reflexivity. }
+  assert (Epre : filter (fun r => l_block r <? b) leaves = firstn (length (filter (fun r => l_block r <? b) leaves)) leaves).
+  { apply (filter_sorted_firstn (fun a b => klt (leaf_key a) (leaf_key b))); [exact (li_sorted _ Hinv)|].
+    intros x y Hxy Hy. apply key_lt_spec in Hxy. unfold leaf_key in Hxy. cbn [fst snd] in Hxy. apply N.ltb_lt in Hy. apply N.ltb_lt. lia. }
+  rewrite Ecount in H. rewrite Epre at 1. unfold hist_of in *. rewrite <- firstn_map. exact H.
+Qed.
+
+Theorem restart_Reach st : TreeReach (st_db st) (st_mem st) -> TreeReach (st_db (restart st)) (st_mem (restart st)).
+Proof. intros HR. unfold restart, TreeReach. cbn [st_db st_mem]. exact (R_inval HEIGHT nodeN zh _ _ _ _ HR). Qed.
+
+Theorem Reach_run ops : forall st, LInv (st_db st) -> TreeReach (st_db st) (st_mem st) -> hist_ordered ops st ->
+  TreeReach (st_db (run_hist ops st)) (st_mem (run_hist ops st)).
+Proof.
+  induction ops as [|o t IH]; intros st Hinv HR Hord; cbn [run_hist fold_left]; [exact HR|].
+  destruct Hord as [Ho Ht]. destruct o as [k f|b|]; cbn [step] in *.
+  - destruct (process_block f st k) as [r st'] eqn:E. cbn [snd] in *.
+    apply IH; [exact (process_block_LInv f st k r st' Hinv Ho E)|exact (process_block_Reach f st k r st' Hinv HR Ho E)|exact Ht].
+  - apply IH; [apply reorg_LInv; exact Hinv|apply reorg_Reach; assumption|exact Ht].
+  - apply IH; [exact Hinv|apply restart_Reach; exact HR|exact Ht].
+Qed.
+Lemma TreeReach_new : TreeReach ldb_empty tmem_new.
+Proof. unfold TreeReach, ldb_empty. cbn [d_l1 d_leaves hist_of map]. apply R_init. Qed.
+
+(* ---------- what every reachable store answers about the L1 info tree ---------- *)
+Definition leaf0 : leaf_row := mkLeaf 0 0 0 0 0 0 0 0 0.
+Definition leaf_fun (d : ldb) : nat -> N := fun i => l_hash (nth i (d_leaves d) leaf0).
+Lemma lf_hist_of ls i : lf (hist_of ls) i = l_hash (nth i ls leaf0).
+Proof.
+  unfold lf, hist_of. change (0, (0, 0)) with ((fun l => (l_hash l, (l_block l, l_bpos l))) leaf0).
+  rewrite map_nth. reflexivity.
+Qed.
+Lemma mroot_ext_lf d n : mroot nodeN 0 (lf (hist_of (d_leaves d))) HEIGHT n = mroot nodeN 0 (leaf_fun d) HEIGHT n.
+Proof. unfold mroot. apply sub_ext. intros i _. apply lf_hist_of. Qed.
+
+(* C11: the root recorded for leaf index i is the Merkle root of the first i+1 leaf hashes = what the DepositContract of the
+   GlobalExitRoot contract holds after its (i+1)-th leaf (getRoot; any initial branch content) *)
+Theorem l1info_root_matches_contract ops : hist_ordered ops lstate_new ->
+  let d := st_db (run_hist ops lstate_new) in
+  forall i, (i < length (d_leaves d))%nat ->
+  exists r, l1_root_by_index d (N.of_nat i) = Some r /\
+            r_hash r = mroot nodeN 0 (leaf_fun d) HEIGHT (S i) /\
+            ((S i < 2 ^ HEIGHT)%nat -> forall b0,
+               r_hash r = dc_root nodeN 0 HEIGHT (Nat.testbit (S i)) (dc_after nodeN (leaf_fun d) HEIGHT (S i) b0)) /\
+            r_pos r = N.of_nat i /\
+            (r_block r, r_bpos r) = leaf_key (nth i (d_leaves d) leaf0).
+Proof.
+  intros Hord d i Hi.
+  pose proof (LInv_run ops lstate_new LInv_empty Hord) as Hinv.
+  pose proof (Reach_run ops lstate_new LInv_empty TreeReach_new Hord) as HR. fold d in Hinv, HR. unfold TreeReach in HR.
+  destruct (store_root_by_index HEIGHT nodeN nodeN_inj zh Hzh32 _ _ _ i HR ltac:(rewrite hist_of_length; exact Hi)) as (r & E1 & E2 & E3 & E4).
+  exists r. split; [exact E1|]. rewrite mroot_ext_lf in E2. split; [exact E2|]. split; [|split; [exact E3|]].
+  - intros Hlt b0. rewrite E2. symmetry. apply contract_root_is_merkle. exact Hlt.
+  - rewrite E4. unfold hist_of. change (0, (0, 0)) with ((fun l => (l_hash l, (l_block l, l_bpos l))) leaf0).
+    rewrite map_nth. reflexivity.
+Qed.
+
+(* every L1 info tree proof served for a recorded version k and a covered index j verifies with the j-th leaf hash *)
+Theorem l1info_proof_verifies ops : hist_ordered ops lstate_new ->
+  let d := st_db (run_hist ops lstate_new) in
+  forall j k, (j < k)%nat -> (k <= length (d_leaves d))%nat ->
+  let root := mroot nodeN 0 (leaf_fun d) HEIGHT k in
+  let s := l1_merkle_proof_to_root d (N.of_nat j) root in
+  length s = HEIGHT /\ calculate_root (leaf_fun d j) s (N.of_nat j) = root.
+Proof.
+  intros Hord d j k Hj Hk root s.
+  pose proof (Reach_run ops lstate_new LInv_empty TreeReach_new Hord) as HR. fold d in HR. unfold TreeReach in HR.
+  destruct (store_proof_verifies HEIGHT nodeN nodeN_inj zh Hzh32 _ _ _ k j HR Hj ltac:(rewrite hist_of_length; exact Hk))
+    as (_ & Hlen & Hcalc & _).
+  unfold s, root, l1_merkle_proof_to_root, get_proof, calculate_root. rewrite <- mroot_ext_lf.
+  split; [exact Hlen|]. unfold leaf_fun. rewrite <- lf_hist_of. exact Hcalc.
+Qed.
+
+(* the announcement check on a reachable store: the last recorded root is (Merkle root of all leaves, count - 1) *)
+Lemma reach_last_root d mem : TreeReach d mem -> d_leaves d <> [] ->
+  exists r, last_root (d_l1 d) = Some r /\ r_hash r = mroot nodeN 0 (leaf_fun d) HEIGHT (length (d_leaves d)) /\
+            r_pos r = N.of_nat (length (d_leaves d) - 1).
+Proof.
+  intros HR Hne. destruct (Reach_inv HEIGHT nodeN nodeN_inj zh Hzh32 _ _ _ HR) as ([[Hh Hp] Hs _ _ _] & _).
+  rewrite hist_of_length in Hh, Hp.
+  assert (Hlen : length (t_roots (d_l1 d)) = length (d_leaves d)).
+  { apply (f_equal (@length _)) in Hp. rewrite !map_length, seq_length in Hp. exact Hp. }
+  rewrite (last_root_sorted _ Hs).
+  destruct (t_roots (d_l1 d)) as [|r0 rs] eqn:Er; [destruct (d_leaves d); [congruence|discriminate]|].
+  rewrite <- Er in *. assert (Hrne : t_roots (d_l1 d) <> []) by (rewrite Er; discriminate).
+  exists (last (t_roots (d_l1 d)) (mkRoot 0 0 0 0)). split; [rewrite Er; reflexivity|].
+  destruct (length (d_leaves d)) as [|m] eqn:En; [destruct (d_leaves d); [congruence|discriminate]|].
+  rewrite seq_S in Hh, Hp. cbn [Nat.add] in Hh, Hp. rewrite map_app in Hh, Hp. cbn [map] in Hh, Hp.
+  split.
+  - rewrite <- (last_map r_hash _ _ Hrne), Hh, last_last. rewrite <- mroot_ext_lf. reflexivity.
+  - rewrite <- (last_map r_pos _ _ Hrne), Hp, last_last. f_equal. lia.
+Qed.
+(* a consistent L1 never halts the node: an announcement carrying the contract's root and leaf count passes the check *)
+Theorem v2_consistent_never_halts f blk init x v : TreeReach (x_db x) (x_mem x) ->
+  let n := length (d_leaves (x_db x)) in
+  (0 < n)%nat -> (n < 2 ^ HEIGHT)%nat ->
+  (forall b0, v_root v = dc_root nodeN 0 HEIGHT (Nat.testbit n) (dc_after nodeN (leaf_fun (x_db x)) HEIGHT n b0)) ->
+  v_count v = N.of_nat n ->
+  process_event f blk init x (EV2 v) = EvOk x.
+Proof.
+  intros HR n Hpos Hlt Hroot Hcount.
+  destruct (reach_last_root _ _ HR) as (r & El & Eh & Ep); [intros E; unfold n in Hpos; rewrite E in Hpos; cbn in Hpos; lia|].
+  apply (v2_event_passes_iff f blk init x v r El). fold n in Eh, Ep. split.
+  - rewrite Eh, (Hroot (fun _ => 0)). symmetry. apply contract_root_is_merkle. exact Hlt.
+  - rewrite Ep, Hcount. unfold u32.
+    assert (Hn : N.of_nat n <= mask32).
+    { assert (Hnn : (n < N.to_nat 4294967296)%nat) by (rewrite pow32_nat; exact Hlt). unfold mask32. lia. }
+    replace (N.of_nat (n - 1) + 1) with (N.of_nat n) by lia.
+    unfold mask32 in *. change 4294967295 with (N.ones 32). rewrite N.land_ones. apply N.mod_small. change (2 ^ 32) with 4294967296. lia.
+Qed.
+(* ... and any other announcement halts it (fail-stop; a reorg that deletes blocks un-halts, see reorg_mem_and_halt) *)
+Theorem v2_mismatch_halts f blk init x v : TreeReach (x_db x) (x_mem x) -> d_leaves (x_db x) <> [] ->
+  (v_root v <> mroot nodeN 0 (leaf_fun (x_db x)) HEIGHT (length (d_leaves (x_db x))) \/
+   v_count v <> u32 (N.of_nat (length (d_leaves (x_db x))))) ->
+  process_event f blk init x (EV2 v) = EvFail PInconsistent (x_mem x) (x_added x) true.
+Proof.
+  intros HR Hne Hmis. destruct (reach_last_root _ _ HR Hne) as (r & El & Eh & Ep).
+  apply (v2_event_mismatch_halts f blk init x v r El).
+  destruct Hmis as [H|H]; [left; rewrite Eh; congruence|right]. rewrite Ep. intros E. apply H. rewrite <- E. f_equal.
+  destruct (d_leaves (x_db x)); [congruence|]. cbn [length]. lia.
+Qed.
+End L1Tree.
+
+(* ====================================================================================================
+   6. A boolean checker for the ordering guarantee (used by the concrete Examples)
+   ==================================================================================================== *)
+Fixpoint incrb (l : list N) : bool := match l with [] => true | x :: t => forallb (fun y => x <? y) t && incrb t end.
+Lemma incrb_sound l : incrb l = true -> StronglySorted N.lt l.
+Proof.
+  induction l as [|x t IH]; intros H; [constructor|]. cbn [incrb] in H. apply andb_true_iff in H as [H1 H2].
+  constructor; [apply IH; exact H2|]. apply Forall_forall. intros y Hy. rewrite forallb_forall in H1. apply N.ltb_lt. apply H1. exact Hy.
+Qed.
+Definition vb_smallb (e : event) : bool := match e with EVerify b => vb_rid b <=? mask32 | _ => true end.
+Definition block_ordered_b (st : lstate) (k : block) : bool :=
+  forallb (fun b => fst b <? k_num k) (d_blocks (st_db st)) && incrb (flat_map upd_pos (k_events k)) &&
+  incrb (flat_map vb_posl (k_events k)) && forallb vb_smallb (k_events k) &&
+  Nat.leb (length (d_leaves (st_db st)) + length (flat_map upd_pos (k_events k))) 32.
+Lemma block_ordered_b_sound st k : block_ordered_b st k = true -> block_ordered st k.
+Proof.
+  unfold block_ordered_b, block_ordered. rewrite !andb_true_iff. intros [[[[H1 H2] H3] H4] H5].
+  split; [|split; [apply incrb_sound; exact H2|split; [apply incrb_sound; exact H3|split]]].
+  - intros b Hb. rewrite forallb_forall in H1. apply N.ltb_lt. apply H1. exact Hb.
+  - apply Forall_forall. intros e He. rewrite forallb_forall in H4. specialize (H4 e He).
+    destruct e; cbn [vb_smallb vb_small] in *; try exact I. apply N.leb_le. exact H4.
+  - apply small_lt_pow. apply Nat.leb_le. exact H5.
+Qed.
+Fixpoint hist_ordered_b (ops : list hop) (st : lstate) : bool :=
+  match ops with
+  | [] => true
+  | o :: t => (match o with HBlock k _ => block_ordered_b st k | _ => true end) && hist_ordered_b t (step st o)
+  end.
+Lemma hist_ordered_b_sound ops : forall st, hist_ordered_b ops st = true -> hist_ordered ops st.
+Proof.
+  induction ops as [|o t IH]; intros st H; cbn [hist_ordered hist_ordered_b] in *; [exact I|].
+  apply andb_true_iff in H as [H1 H2]. split; [|apply IH; exact H2].
+  destruct o; try exact I. apply block_ordered_b_sound. exact H1.
 Qed.
